@@ -238,6 +238,30 @@ class C13(Prop):
                     acc.violation(f"display-wrong:{want[0]}->{got[0]}:listed", f"{zone}: listed schedule (days {sorted(days)}, start {start}, record dated "
                                   f"{clock.local(zone, e0).date()}, today is {loc.date()}) displays {s_.display!r}, want {want[0]}",
                                   {"start": start, "days": sorted(days), "got": s_.display, "zone": zone, "now": now})
+            # the device is polled again later the same local day: the very same records, parsed again
+            if recs and now_min < 1290:
+                t3 = now + 2 * 3600 + 420
+                loc3 = clock.local(zone, t3)
+                if loc3.date() == loc.date():
+                    traveller.move_to(float(t3))
+                    try:
+                        again = {s_.schedule_id: s_ for s_ in self.parser.get_schedules(_rp.schedules([_rp.schedule_record(k2, mask, e0, e0 + 1800) for k2, mask, e0, _ in recs]))}
+                    except Exception as exc:
+                        acc.violation("raised", f"parsing the same listing again later the same day raised {type(exc).__name__}: {exc}", {"zone": zone, "now": now})
+                        again = {}
+                    for k2, mask, e0, sm in recs:
+                        s_ = again.get(str(k2))
+                        if s_ is None:
+                            continue
+                        acc.ev()
+                        start = f"{sm // 60:02d}:{sm % 60:02d}"
+                        days = {d for d in range(7) if mask & (2 << d)}
+                        want = clock.next_run(loc3.weekday(), loc3.hour * 60 + loc3.minute, sm, days)
+                        got = clock.classify_text(s_.display, start)
+                        if not (got[0] == want[0] and (want[0] != "next" or got[1] == want[1])):
+                            acc.violation(f"display-wrong:{want[0]}->{got[0]}:listed-again-later", f"{zone}: the same record (days {sorted(days)}, start {start}) listed again at "
+                                          f"{loc3:%a %H:%M} (first at {loc:%H:%M}) displays {s_.display!r}, want {want[0]}", {"start": start, "days": sorted(days), "zone": zone})
+                    traveller.move_to(float(now))
         differs = wd != utc.weekday()
         near_midnight = now_min < 120 or now_min >= 1320
         if differs or near_midnight:
